@@ -5,7 +5,7 @@ claim('C01',
       SCOPE + "Proved: every MemoryFS operation meets the trait contract TC (and its completeness half TC+) over the abstraction tree_of(files) with whole-map frames; every VfsPath primitive meets the path contract PC for ANY backend meeting TC "
       "(success implies the documented precondition and the exact effect, failure leaves the tree unchanged, occupied create_dir classified by occupant, exactness 'succeeds exactly when' for backends that do not fail spuriously); "
       "AltrootFS meets TC over the subtree view given PC on the inner layer, hence every altroot stacking does. OverlayFS: see C08-C10. PhysicalFS/OS: assumed to meet TC.",
-      "Assumed: TC for dyn FileSystem at the World boundary (rule R5) - it is proved for MemoryFS and AltrootFS, assumed for PhysicalFS/EmbeddedFS; lock cell store-passing (R4); AltrootFS::read_dir assumed (iterator plumbing).",
+      "Assumed: TC for dyn FileSystem at the World boundary (rule R5) - it is proved for MemoryFS and AltrootFS, assumed for PhysicalFS/EmbeddedFS (PhysicalFS methods are under weak contracts: panic-freedom, truncating create, append mode, directory length 0; the OS side is opaque); lock cell store-passing (R4). Functions out of reach are 'watched' (source hash) and decided by the bounded oracles when they change.",
       "DESIGN.md section 5, C01")
 claim('C03',
       SCOPE + "wf (root is a directory, every entry canonical with a directory parent) is an inductive invariant: MemoryFsImpl::new establishes it, every VfsPath mutator has 'wf(old) ==> wf(final)' proved from its PC clause through the spec-level lemmas of spec/wf.rs, for unrestricted call types "
@@ -17,8 +17,8 @@ claim('C04',
       "Assumed: std::io::Cursor<Vec<u8>> write/seek model (prelude/mem.rs), std::io::copy, PhysicalFS contents (OS).",
       "DESIGN.md section 5, C04")
 claim('C05',
-      SCOPE + "Proved: MemoryFS exists/metadata/open_file/read_dir all read the same abstraction; MemoryFS::read_dir (rule R19, loop invariant over HashMap::iter) lists exactly the bare child names, each once, errs on files and missing paths; VfsPath::is_file/is_dir = exists && type. walk_dir order is not covered yet.",
-      "Assumed: AltrootFS::read_dir and VfsPath::read_dir name mapping (iterator adapters) until their units land.",
+      SCOPE + "Proved: MemoryFS exists/metadata/open_file/read_dir all read the same abstraction; MemoryFS::read_dir (rule R19, loop invariant over HashMap::iter) lists exactly the bare child names, each once, errs on files and missing paths; VfsPath::is_file/is_dir = exists && type; VfsPath::read_dir yields exactly parent + '/' + name for the backend's listing; AltrootFS::read_dir lists exactly the children of P + q (bare names); OverlayFS::read_dir succeeds only on a path served as a directory; WalkDirIterator::next is proved as a step contract (yields the head of the current listing, pushes it iff it is a directory, None only when listing and stack are empty, error items carry the entry's path).",
+      "Not proved: the global traversal statement (every descendant exactly once, directory before contents) - only the step contract; OverlayFS::read_dir union contents. Iterator adapters are replaced by eager stand-ins (rule R8).",
       "DESIGN.md section 5, C05")
 claim('C06',
       SCOPE + "Complete functional proof of join_internal (total, rejects exactly trailing slash with length > 1, canonical result equal to the lexical resolution join_spec, '..' at root stays, leading '/' restarts, multi-byte safe char boundaries), parent_internal = parent_spec, filename_internal = filename_spec, extension_internal = ext_spec, "
@@ -26,9 +26,9 @@ claim('C06',
       "Trusted: the str prelude (rfind/starts_with/ends_with/contains/indexing specs, byte-offset bridge axioms, split/rsplitn stand-ins R6/R25).",
       "DESIGN.md section 5, C06")
 claim('C07',
-      SCOPE + "AltrootFS::path(q) = (root.fs, P + q) for every canonical q (confinement lemma lemma_join_of_relative over the proved join contract); every AltrootFS method except read_dir/copy_file is proved to have exactly the TC outcome and effect of the same operation on P + q, viewed through subtree(t, P), "
+      SCOPE + "AltrootFS::path(q) = (root.fs, P + q) for every canonical q (confinement lemma lemma_join_of_relative over the proved join contract); every AltrootFS method except copy_file is proved to have exactly the TC outcome and effect of the same operation on P + q, viewed through subtree(t, P), "
       "and the frame changed_only_under(t, t', P): nothing outside P is created, changed or removed.",
-      "Assumed: AltrootFS::read_dir (iterator adapters); PhysicalFS::get_path / PathBuf::join (OS side) not yet under contract.",
+      "PhysicalFS::get_path is proved to hand the OS root.join(rel) with rel relative and free of '.'/'..' components for every canonical path; PathBuf::join and symlinks are the OS side (assumed). AltrootFS::copy_file is watched only.",
       "DESIGN.md section 5, C07")
 claim('C12',
       SCOPE + "Proved: From<VfsErrorKind>/From<io::Error> normalise exactly NotFound -> FileNotFound and fill the placeholder path; with_path sets exactly the path and keeps the kind; with_context/with_cause keep both; every VfsPath primitive relabels backend errors with its own path (closure contracts 'relabelled'), get_parent errors name the path or its parent; "
@@ -60,7 +60,7 @@ claim('C09',
 claim('C10',
       SCOPE + "Proved: whiteout_path(q) is exactly <upper root>/.whiteout<q>_wo (marker_path) for every canonical q; remove_file/remove_dir leave the marker in place on success and exists/read_path/metadata/open_file treat a marked path as absent; create_dir/create_file remove exactly that marker and leave a fresh empty upper entry; the root listing never shows '.whiteout' (after the fix commit). "
       "Known finding: descendants of a removed lower directory stay visible (marker hides only the directory).",
-      "Marker persistence across unrelated later operations is covered by the per-operation frames only for entries outside the marker folder; reserved names ('.whiteout', '*_wo') are excluded as in the property.",
+      "Marker persistence across later operations: every overlay mutator on q keeps every upper entry other than q's upper copy and q's marker (keeps_other_entries), hence the markers of all other paths (lemma_markers_persist, marker_path is injective); reserved names ('.whiteout', '*_wo') are excluded as in the property.",
       "DESIGN.md section 5, C10")
 claim('C11',
       SCOPE + "Proved: create_dir_all (loop invariant over component boundaries) adds only directories at component prefixes, leaves every existing entry untouched and on Ok every prefix is a directory - against a backend that may fail at every call; remove_dir_all: absent path is a no-op success, everything changed lies below the path, Ok implies the path is gone, wf preserved (recursion, termination not proved); "
